@@ -29,6 +29,10 @@ impl Read for Grow {
     }
 }
 
+fn code_str(c: (u32, u32)) -> String {
+    (0..c.1).rev().map(|i| if (c.0 >> i) & 1 == 1 { '1' } else { '0' }).collect()
+}
+
 fn bits(s: &str) -> Vec<bool> {
     s.chars().filter(|c| *c == '0' || *c == '1').map(|c| c == '1').collect()
 }
@@ -117,6 +121,27 @@ fn failure_sites(sorenson: bool) -> Vec<(String, Vec<u8>)> {
                 let mut mbs: Vec<Mb> = (0..k).map(|_| good_mb()).collect();
                 mbs.push(Mb::Raw(bits(fb)));
                 v.push((format!("{name} in macroblock {k} of {} picture", if ptype == 0 { "an I" } else { "a P" }), enc(&Pic { hdr: hdr(ptype), mbs }, &[0, 0])));
+            }
+        }
+    }
+    // faults in a later block of a macroblock, after earlier blocks of the same macroblock have
+    // been dequantised and stored (bright DC + AC data), in the first and in the second macroblock
+    for k in 0..2usize {
+        for blk in [1usize, 3, 5] {
+            for (ptype, head) in [(0u8, "1"), (1u8, "0 00011")] {
+                // INTRA, CBPY with all four luma blocks coded (pattern 1111 = index 15), cbpc 00
+                let mut fb = format!("{head} 11 ");
+                for b in 0..blk {
+                    fb.push_str("11111010 ");
+                    if b < 4 {
+                        // one AC event (last, run 0, level 1, positive): a non-trivial stored block
+                        fb.push_str(&format!("{} 0 ", code_str(crate::tables::TCOEF_VLC[58])));
+                    }
+                }
+                fb.push_str("00000000 0000");
+                let mut mbs: Vec<Mb> = (0..k).map(|_| good_mb()).collect();
+                mbs.push(Mb::Raw(bits(&fb)));
+                v.push((format!("INTRADC 0 in block {blk} of macroblock {k} of {} picture (earlier blocks stored)", if ptype == 0 { "an I" } else { "a P" }), enc(&Pic { hdr: hdr(ptype), mbs }, &[0, 0])));
             }
         }
     }
